@@ -182,11 +182,11 @@ def tables_for(fields, count):
 def run(ctx):
     quick = ctx.tier == "quick"
     cases = []
-    for base in cidgrammar.base_cids(30 if quick else 300):
+    for base in cidgrammar.base_cids(80 if quick else 400):
         cases.append({"kind": "cid", "rows": base["rows"]})
     table_count = 0
-    for index, fields in enumerate(FIELD_SETS if not quick else FIELD_SETS[:5] + FIELD_SETS[-2:]):
-        for number, (table, has_rejects) in enumerate(tables_for(fields, 12 if quick else 60)):
+    for index, fields in enumerate(FIELD_SETS):
+        for number, (table, has_rejects) in enumerate(tables_for(fields, 25 if quick else 80)):
             cases.append({"kind": "table", "fields": fields, "table": table, "sheet": 1 + (index + number) % 2, "has_rejects": has_rejects})
             table_count += 1
     ctx.pmap(MOD, "work", engine.chunks(cases, 8), label="C17")
